@@ -37,12 +37,13 @@ RULE = (
 CLASSES = [
     "crash_before_open", "crash_after_truncate", "crash_mid_write", "crash_before_rename", "crash_after_rename",
     "torn_prefix", "multi_chunk", "buffered_flush_between_files", "cache_grow", "cache_shrink", "threads_off",
-    "reader_between_open_and_rename", "jobdoc", "projdoc", "cache", "migration", "stray_tmp_before_update",
+    "reader_between_open_and_rename", "jobdoc", "projdoc", "cache", "migration", "stray_tmp_before_update", "interrupt", "bulk_update",
 ]
 ASSUMPTIONS = [
     "process death is modelled by os._exit before a Python-level fs call; no power loss, no un-fsynced rename reordering",
     "'new' content is what the uncrashed run of the same route produces (C05 decides whether that is the right content)",
     "the state point file is out of scope here (C11)",
+    "a crash is also modelled as an interruption (KeyboardInterrupt raised at the step, clean-up code runs, then the process ends) in a third of the scenarios",
 ]
 SHRINK_FROZEN_KEYS = ()
 
@@ -60,7 +61,7 @@ vals = st.sampled_from([0, 1.5, "v", None, [1, 2], {"y": 2}, BIG])
 @st.composite
 def cases(draw):
     target = draw(st.sampled_from(["jobdoc", "jobdoc", "projdoc", "cache", "migration"]))
-    c = {"target": target, "threads": draw(st.sampled_from([True, True, False])), "torn": draw(st.lists(st.integers(2, 40), max_size=3)),
+    c = {"target": target, "threads": draw(st.sampled_from([True, True, False])), "torn": draw(st.lists(st.integers(2, 40), max_size=3)), "interrupts": draw(st.integers(0, 2)) == 0,
          "reader": draw(st.sampled_from(["raw", "api", "raw"])), "with_reader": draw(st.integers(0, 2)) == 0}
     if target == "migration":
         c["old"] = draw(docs)
@@ -119,6 +120,12 @@ def build_template(ctx, case):
             ids.append(p2.open_job({"b": i}).init().id)
         for i in range(min(case.get("remove", 0), len(ids))):
             p2.open_job(id=ids[i]).remove()
+        for i in range(int(case.get("bulk_add", 0))):
+            # thousands of new jobs (written directly): the update reads them in several chunks
+            spb = {"bulk": i}
+            jid = oracle.job_id(spb)
+            os.mkdir(os.path.join(root, "workspace", jid))
+            fsutil.write_file(os.path.join(root, "workspace", jid, "signac_statepoint.json"), json.dumps(spb).encode())
         if case.get("stray_tmp"):
             import gzip as _gz
 
@@ -352,6 +359,11 @@ def run_case(case, ctx):
             offs |= {o for o in case.get("torn", []) if isinstance(o, int)}
             for o in sorted(o for o in offs if 0 <= o < max(n, 1)):
                 points.append((k, o))
+    if case.get("bulk_add"):
+        # a big workspace: only the instants right after something was renamed into place, and the last step
+        # (every published content must be the old or the new one)
+        cl.add("bulk_update")
+        points = [(k, None) for k in range(1, len(trace)) if trace[k - 1][1] == "replace"] + [(len(trace) - 1, None)]
     for k, torn in points:
         if ctx.out_of_time():
             break
@@ -372,6 +384,21 @@ def run_case(case, ctx):
         newr = {f.replace(template, root, 1): v for f, v in new.items()}
         check_after(case, root, ids, oldr, newr, snap_before, f"crash before step {k} ({trace[k][1]}{'' if torn is None else f', {torn} bytes torn'})", mms)
         shutil.rmtree(root, ignore_errors=True)
+        if case.get("interrupts") and not ctx.out_of_time():
+            # the same point, but the process is interrupted (KeyboardInterrupt / SystemExit from a signal handler)
+            # instead of killed: clean-up code runs on the way out -- and must not publish anything half-written
+            root = copy_tree(ctx, template)
+            snap_before = fsutil.snapshot(root)
+            prep, act = make_writer(case, root, ids)
+            res = fsshim.run_child(prep, act, root, mode="interrupt", crash_at=k, torn=torn)
+            evaluations += 1
+            if res.payload is None and not res.died:
+                raise HarnessError(f"interrupt run at step {k} ended with status {res.status} without result")
+            counts["interrupt"] = counts.get("interrupt", 0) + 1
+            oldr = {f.replace(template, root, 1): v for f, v in old.items()}
+            newr = {f.replace(template, root, 1): v for f, v in new.items()}
+            check_after(case, root, ids, oldr, newr, snap_before, f"KeyboardInterrupt at step {k} ({trace[k][1]}{'' if torn is None else f', {torn} bytes written'})", mms)
+            shutil.rmtree(root, ignore_errors=True)
     # ---- reader placements -----------------------------------------------------
     if case.get("with_reader") and case["target"] != "migration" and not ctx.out_of_time():
         n_sched, n_between = reader_schedules(case, ctx, template, ids, old, new, mms)
@@ -479,9 +506,10 @@ CONSTRUCTED = [
     {"target": "jobdoc", "threads": False, "torn": [7], "reader": "api", "with_reader": True, "old": {"big": BIG, "l": [0]}, "route": "reset", "k": "x", "v": 0, "m": {"x": 1.5}},
     {"target": "projdoc", "threads": False, "torn": [], "reader": "raw", "with_reader": False, "old": None, "route": "update", "k": "x", "v": 0, "m": {"y": BIG}},
     {"target": "jobdoc", "threads": True, "torn": [3], "reader": "raw", "with_reader": False, "old": {"x": "s", "l": [], "n": {"y": 1}}, "route": "buffered", "k": "x", "v": [1, 2], "m": {}, "others": [[1, "v"], [2, BIG]]},
-    {"target": "cache", "threads": True, "torn": [9], "reader": "raw", "with_reader": True, "old_jobs": 2, "cache_exists": True, "add": 2, "remove": 0},
-    {"target": "cache", "threads": True, "torn": [], "reader": "raw", "with_reader": False, "old_jobs": 3, "cache_exists": True, "add": 0, "remove": 2},
+    {"target": "cache", "threads": True, "torn": [9], "reader": "raw", "with_reader": True, "old_jobs": 2, "cache_exists": True, "add": 2, "remove": 0, "interrupts": True},
+    {"target": "cache", "threads": True, "torn": [], "reader": "raw", "with_reader": False, "old_jobs": 3, "cache_exists": True, "add": 0, "remove": 2, "interrupts": True},
     {"target": "cache", "threads": True, "torn": [4], "reader": "raw", "with_reader": False, "old_jobs": 1, "cache_exists": False, "add": 1, "remove": 0},
+    {"target": "cache", "threads": True, "torn": [], "reader": "raw", "with_reader": False, "old_jobs": 3, "cache_exists": True, "add": 0, "remove": 1, "bulk_add": 2001},
     {"target": "cache", "threads": True, "torn": [], "reader": "raw", "with_reader": True, "old_jobs": 2, "cache_exists": True, "add": 0, "remove": 1, "stray_tmp": True},
     {"target": "cache", "threads": True, "torn": [6], "reader": "raw", "with_reader": False, "old_jobs": 0, "cache_exists": False, "add": 1, "remove": 0, "stray_tmp": True},
 ]
